@@ -57,7 +57,7 @@ def run(ctx):
         ctx.constants["MC_WebOps_depth2"] = c2
         ctx.mc("frontends/MCWebOps", cfg_of(c2), name="MC WebOps (sequences of 2 requests)", timeout=6000, coverage=False)
 
-    traces = ctx.impl("harness/webops_driver.py", ["--n", 14 if q else 400, "--len", 30 if q else 45, "--jobs", 4], timeout=6000)
+    traces = ctx.impl("harness/webops_driver.py", ["--n", 14 if q else 400, "--len", 36 if q else 50, "--jobs", 4], timeout=6000)
     reqs = 0
     for tr in traces:
         evs = tr["events"]
